@@ -18,7 +18,7 @@ func init() {
 		Level: "other",
 		Explanation: "Decided (structural necessary conditions of 'splitting never corrupts text' and of termination): (R13.1) every bound of every string slice in package rag whose result can reach returned text is a rune boundary by construction: 0, len(s), a strings.Index* result (+ len of the match), an index at which the same function tested s[i] against ASCII constants (then i and i+1), a range-over-string key, a value snapped by a utf8.RuneStart loop, a Boundary.Position, or the result of a callee whose every return is such a value; raw arithmetic from a size is rejected; (R13.2) the split loop of SplitToSize continues only with a strictly shorter remainder (cut position proven > 0, remainder obtained by slicing from it and non-lengthening functions) and stops otherwise; (R13.3) overlap is generated from the previous chunk's own text. " +
 			"Not decided: the size bound itself (numeric), conservation of characters, token estimates.",
-		Rules: []func(*eng.Ctx){ruleOverlapEvaluated, ruleSplitToSizeEvaluated, ruleTruncatedOverlapKeepsEnd, ruleTokenRatioDefaulted, loopVarRule("R13.LV", "rag"), ruleRuneBoundary, ruleSplitProgress, ruleOverlapSource, ruleRatioAgreement, ruleSplitLoopDrains, ruleHardLimitGuard, roleRule("R13.R", "rag"), ruleSentenceIndexSteps, ruleWholeBlockOnlyUnderMax, ruleIndexUnits, ruleFlushConsumesPending},
+		Rules: []func(*eng.Ctx){ruleOverlapAskedTwiceEvaluated, ruleOverlapEvaluated, ruleSplitToSizeEvaluated, ruleTruncatedOverlapKeepsEnd, ruleTokenRatioDefaulted, loopVarRule("R13.LV", "rag"), ruleRuneBoundary, ruleSplitProgress, ruleOverlapSource, ruleRatioAgreement, ruleSplitLoopDrains, ruleHardLimitGuard, roleRule("R13.R", "rag"), ruleSentenceIndexSteps, ruleWholeBlockOnlyUnderMax, ruleIndexUnits, ruleFlushConsumesPending},
 	})
 }
 
